@@ -4,6 +4,7 @@
 
 #include "metadata.h"
 
+#include <limits.h>
 #include <stdio.h>
 #include <stdlib.h>
 #include <string.h>
@@ -301,8 +302,15 @@ int sbdf_tm_read(FILE* in, sbdf_tablemetadata** out)
 			goto end;
 		}
 
+		if (column_cnt < 0 || column_cnt > INT_MAX / (2 * (int)sizeof(void*)))
+		{
+			error = SBDF_ERROR_OUT_OF_MEMORY;
+			goto end;
+		}
+
 		t->no_columns = column_cnt;
-		t->column_metadata = calloc(column_cnt, sizeof(void*));
+		/* allocate what sbdf_tm_add expects for this count */
+		t->column_metadata = calloc(sbdf_calculate_array_capacity(column_cnt), sizeof(void*));
 		if (!t->column_metadata)
 		{
 			error = SBDF_ERROR_OUT_OF_MEMORY;
